@@ -87,8 +87,9 @@ def draw_header(r):
                 hdr["%s_%d" % (pv, k)] = r.uniform(-1, 1) * dk * scale / (umax ** order)
     else:
         hdr["ctype1"], hdr["ctype2"] = "RA---TAN-SIP", "DEC--TAN-SIP"
-        order_a = r.randrange(2, 5)
-        order_b = order_a if chance(r, 0.5) else r.randrange(2, 5)      # A_ORDER and B_ORDER are independent keywords
+        hi = 7 if chance(r, 0.25) else 5        # a quarter of the SIP headers may go to order 5 or 6 (HST, Spitzer)
+        order_a = r.randrange(2, hi)
+        order_b = order_a if chance(r, 0.5) else r.randrange(2, hi)     # A_ORDER and B_ORDER are independent keywords
         for pre in ("a", "b"):
             order = order_a if pre == "a" else order_b
             hdr["%s_order" % pre] = order
@@ -224,8 +225,9 @@ def plan(S, prop, mode, tier, avoid):
                 op.update({"where": pick(r, ["crval", "crval", "rounded"]), "pts": _pts(r, hdr, 3), "distort": chance(r, 0.85),
                            "shape": pick(r, ["scalar", "arr3"])})
             elif k == "abort":
-                op.update({"how": pick(r, ["find_len_mismatch", "i2s_len_mismatch", "nofind_len_mismatch"]),
-                           "pts": _pts(r, hdr, 3)})
+                op.update({"how": pick(r, ["find_len_mismatch", "i2s_len_mismatch", "nofind_len_mismatch", "i2s_len_mismatch",
+                                           "jac_len_mismatch"]),
+                           "pts": _pts(r, hdr, 3), "distort": chance(r, 0.5)})
             elif k == "nan":
                 op.update({"which": pick(r, ["i2s", "s2i_nofind"]), "val": pick(r, ["nan", "inf", "-inf"]),
                            "shape": pick(r, ["scalar", "arr3"])})
@@ -566,20 +568,25 @@ def execute(script, run, env):
         elif k == "abort":
             pts = np.array(op["pts"], dtype="f8")
             a3, b2 = pts[:, 0].copy(), pts[:2, 1].copy()
+            dis = bool(op.get("distort", True))
+            if not dis:
+                run.fault("aborted_call_asked_for_no_distortion")
             try:
                 with warnings.catch_warnings():
                     warnings.simplefilter("ignore")
                     if op["how"] == "find_len_mismatch":
                         lon, lat = H.fresh().image2sky(pts[:, 0], pts[:, 1])
-                        H.obj.sky2image(lon, lat[:2], find=True)
+                        H.obj.sky2image(lon, lat[:2], find=True, distort=dis)
                     elif op["how"] == "nofind_len_mismatch":
-                        if distorted and not H.inverse_built:
+                        if distorted and dis and not H.inverse_built:
                             H.inverse_built = True
                             run.fault("lazy_inverse_fit_built_late" if H.ncalls > 0 else "lazy_inverse_fit_built_first")
                         lon, lat = H.fresh().image2sky(pts[:, 0], pts[:, 1])
-                        H.obj.sky2image(lon, lat[:2], find=False)
+                        H.obj.sky2image(lon, lat[:2], find=False, distort=dis)
+                    elif op["how"] == "jac_len_mismatch":
+                        H.obj.get_jacobian(a3, b2, distort=dis)
                     else:
-                        H.obj.image2sky(a3, b2)
+                        H.obj.image2sky(a3, b2, distort=dis)
                 out = "ok?"
             except Exception as e:
                 out = "raised(%s)" % type(e).__name__
